@@ -21,11 +21,11 @@ Require Import C14.Types C14.gen.Ctors C14.Model C14.Wf C14.ProofsAssoc C14.Proo
 Theorem C14_ctor_table_wf : forall c, spec_okb (spec_of c) = true.
 Proof. exact spec_ok_all. Qed.
 
-(* the only constructor parameters of library classes that are kept as attributes without being forwarded to
-   LinearOperator.__init__ - and are therefore reset by EVERY clone / detach / to / type / rebuild - are the listed
-   ones (known findings); a repair removes entries, no other parameter may ever join the list *)
-Theorem C14_lossy_params_listed : forall c k, In c lib_classes -> In k (lossy_params c) ->
-  In (c, k) [(CZero, k_dtype); (CZero, k_device); (CChol, k_upper); (CKronTriangular, k_upper)].
+(* NO constructor parameter of a library class is kept as an attribute without being forwarded to
+   LinearOperator.__init__ (such a parameter is reset by EVERY clone / detach / to / type / rebuild; the four of the
+   pinned tree - Zero dtype / device, Chol upper, KroneckerProductTriangular upper - have been repaired): the list is
+   empty and nothing may ever join it *)
+Theorem C14_lossy_params_listed : forall c k, In c lib_classes -> In k (lossy_params c) -> False.
 Proof. exact lossy_params_listed. Qed.
 
 (* every tensor-allocation call in every file of the package chooses its dtype from an existing tensor / operator
@@ -35,12 +35,22 @@ Theorem C14_alloc_sites_typed : forall s, In s sites -> is_known_untyped s = fal
 Proof. exact alloc_sites_typed. Qed.
 
 (* the classes that define their own to / type / clone / detach / cpu / representation / dtype ... are exactly the ones
-   the model transcribes class by class (plus the overrides added by the proposed repairs of listed findings), and
-   every override the model relies on still exists: a new override cannot go unnoticed *)
+   the model transcribes class by class, and every override the model relies on still exists: a new override cannot go
+   unnoticed *)
 Theorem C14_overrides_modelled :
   (forall c m, In (c, m) overrides -> In (c, m) (modelled_overrides ++ repair_overrides)) /\
   (forall p, In p required_overrides -> In p overrides).
 Proof. exact (conj overrides_modelled overrides_required). Qed.
+
+(* syntactic shape of EVERY definition of to / type / clone / detach / cpu / cuda / double / float / half in the package
+   (the generic ones of LinearOperator and every override, regenerated per run): none can return `self` or a local
+   alias of it, none leaves early under a test of self.dtype / self.device (the dtype property is only the dtype of the
+   first argument), none assigns an attribute of `self` - except the documented TransposePermutation.type (known
+   finding); and the generic methods are in the table.  A new early return / in-place shortcut breaks this proof. *)
+Theorem C14_copy_methods_shape_documented :
+  (forall o m s, In (o, m, s) method_shapes -> s = (false, false, false) \/ In (o, m, s) documented_shapes) /\
+  (forall m, In m base_methods -> In ("LinearOperator"%string, m, (false, false, false)) method_shapes).
+Proof. exact (conj method_shapes_documented base_methods_plain). Qed.
 
 (* ---------------------------------------------------------------- constructors on stored arguments *)
 
@@ -74,13 +84,6 @@ Proof. exact rebuild_loses_flags. Qed.
    (ZeroLinearOperator's integer sizes): the error path is part of the model *)
 Theorem C14_representation_error_exact : forall o, repr o = None <-> no_otherb o = false.
 Proof. exact repr_error_exact. Qed.
-
-(* the known finding, on the pinned signature of CholLinearOperator (upper is not forwarded): the rebuild of an
-   upper Cholesky operator is a different operator *)
-Theorem C14_chol_upper_refuted :
-  spec_of CChol = {| cs_npos := 1; cs_varargs := false; cs_named := [(k_upper, Some (VBool false), PAttr)]; cs_varkw := false |} ->
-  exists o, wfb o = true /\ no_otherb o = true /\ rebuild F32 o <> Some o.
-Proof. exact chol_upper_refuted. Qed.
 
 (* the keyword arguments of a constructor call may come in any order: only the name -> value function matters
    (clone / to / type build dicts in their own iteration order, the representation tree passes differentiable kwargs first) *)
@@ -120,14 +123,52 @@ Theorem C14_clone_shares_nothing : forall defdt fuel o n o' n',
   map tid (leaves o') = seq n (List.length (leaves o)) /\ n' = (n + List.length (leaves o))%nat.
 Proof. exact clone_fresh. Qed.
 
-(* the known finding at the level of the model, on the pinned constructor signature: to(<floating dtype>) of a
-   permutation operator casts perm / inv_perm and the constructor rejects them - the call cannot succeed *)
-Theorem C14_perm_to_float_refuted : forall defdt f d dev p q nd at_ n,
-  spec_of CPermutation = {| cs_npos := 2; cs_varargs := false;
-                            cs_named := [(k_validate_args, Some (VBool true), PKw)]; cs_varkw := false |} ->
-  is_float d = true ->
-  meth_call defdt (S f) (MTo (Some d) dev) (AOp CPermutation [ATensor p; ATensor q] [] nd at_) n = None.
-Proof. exact perm_to_float_raises. Qed.
+(* ... in particular, leaf by leaf (state quantifier: any fuel, any default dtype, any counter): after to(d) / type(d)
+   every leaf has its old value, every FLOATING leaf has dtype d and every integer / boolean leaf its old dtype -
+   whatever the operator's own dtype property reports.  The property is the dtype of the FIRST argument; when that is a
+   data-free operator with a nominal dtype (permutation, zero, identity) it may already equal d while the data do not:
+   the conversion must not look at it. *)
+Theorem C14_convert_casts_every_float_leaf : forall defdt fuel m d o n o' n',
+  (exists dev, m = MTo (Some d) dev) \/ m = MType d ->
+  wfb o = true -> losslessb defdt o = true -> safeb m o = true ->
+  meth_call defdt fuel m o n = Some (o', n') ->
+  Forall2 (fun t' t => tvl t' = tvl t /\ tdt t' = (if is_float (tdt t) then d else tdt t) /\ trg t' = trg t)
+          (leaves o') (leaves o) /\
+  Forall (fun t' => is_float (tdt t') = true -> tdt t' = d) (leaves o').
+Proof. exact casts_every_float_leaf. Qed.
+
+(* the refutation of the tempting shortcut "return self when self.dtype is already the requested dtype" (what
+   torch.Tensor.to does): it breaks the leaf rule on EVERY operator that reports dtype d while holding a floating
+   tensor of another dtype *)
+Theorem C14_to_shortcut_on_dtype_refuted : forall defdt fuel d dev o n,
+  dtype_of o = Some d -> Exists (fun t => is_float (tdt t) = true /\ tdt t <> d) (leaves o) ->
+  exists o' n', to_shortcut defdt fuel d dev o n = Some (o', n') /\
+                map obs (leaves o') <> map (cast_rule (MTo (Some d) dev)) (leaves o).
+Proof. exact to_shortcut_violates. Qed.
+
+(* PermutationLinearOperator.to (any dtype / device request): the index tensors perm / inv_perm are handed over
+   untouched - same storages, same integer dtype, nothing allocated - and only the nominal dtype changes *)
+Theorem C14_perm_to_keeps_indices : forall defdt f d dev ch dn nd at_ n o' n',
+  wfb (AOp CPermutation ch dn nd at_) = true ->
+  meth_call defdt (S f) (MTo d dev) (AOp CPermutation ch dn nd at_) n = Some (o', n') ->
+  o' = AOp CPermutation ch dn nd (perm_attrs d (dflt_attrs defdt CPermutation)) /\ n' = n.
+Proof. exact perm_to_keeps_indices. Qed.
+
+(* the known finding at the level of the model: TransposePermutationLinearOperator has no to() of its own; the generic
+   one rebuilds it through the constructor, which hard-wires float32 - the result never reports the requested dtype *)
+Theorem C14_transperm_to_resets_nominal_refuted : forall defdt f d dev ch dn nd at_ n o' n',
+  wfb (AOp CTransposePermutation ch dn nd at_) = true -> ch = [] ->
+  meth_call defdt (S f) (MTo d dev) (AOp CTransposePermutation ch dn nd at_) n = Some (o', n') ->
+  dtype_of o' = Some F32.
+Proof. exact transperm_to_resets_nominal. Qed.
+
+(* torch's default dtype is not an input of clone / detach / cpu / to / type: the same call on the same stored operator
+   returns the same result under ANY default dtype - in particular under a default that changed since the operator
+   was constructed (history quantifier).  Rests on the regenerated table: no constructor derives an attribute from a
+   parameter it does not forward (C14_lossy_params_listed), so nothing is re-resolved against the default at rebuild time. *)
+Theorem C14_default_dtype_irrelevant : forall d1 d2 fuel m o n,
+  meth_call d1 fuel m o n = meth_call d2 fuel m o n.
+Proof. exact meth_call_defdt. Qed.
 
 (* ---------------------------------------------------------------- the hypotheses are satisfiable *)
 
@@ -158,3 +199,31 @@ Example C14_convert_hypotheses_satisfiable :
                  map obs (leaves o') = [(0, F64, true); (1, F64, false); (2, I64, false); (3, F64, true); (4, I64, false); (5, F64, false)]%nat) /\
   (exists o' n', meth_call F64 8 (MTo (Some F64) None) ex_interp 6 = Some (o', n')).
 Proof. vm_compute. repeat split; try reflexivity; eexists; eexists; try split; reflexivity. Qed.
+
+(* Matmul( Permutation(perm, inv_perm) [nominal float32], Dense(float64 tensor) ): the operator REPORTS float32 although
+   its only floating tensor is float64.  All hypotheses of the conversion theorems hold; to(float32) must - and in the
+   model does - cast the float64 tensor (fresh storage 3); the dtype-keyed shortcut would return it unchanged. *)
+Definition ex_perm_first : arg :=
+  AOp CMatmul
+    [AOp CPermutation [ATensor (T 0 0 I64 false); ATensor (T 1 1 I64 false)] [] [(k_validate_args, VBool true)]
+         [(k_dtype, VDtype F32)];
+     AOp CDense [ATensor (T 2 2 F64 true)] [] [] []] [] [] [].
+Example C14_nominal_first_argument_satisfiable :
+  wfb ex_perm_first = true /\ losslessb F64 ex_perm_first = true /\ safeb (MTo (Some F32) None) ex_perm_first = true /\
+  dtype_of ex_perm_first = Some F32 /\
+  Exists (fun t => is_float (tdt t) = true /\ tdt t <> F32) (leaves ex_perm_first) /\
+  (exists o' n', meth_call F64 8 (MTo (Some F32) None) ex_perm_first 3 = Some (o', n') /\
+                 map obs (leaves o') = [(0, I64, false); (1, I64, false); (2, F32, true)]%nat /\
+                 map tid (leaves o') = [0; 1; 3]%nat).
+Proof.
+  vm_compute. repeat split; try reflexivity.
+  - apply Exists_cons_tl. apply Exists_cons_tl. apply Exists_cons_hd. split; [reflexivity|discriminate].
+  - eexists; eexists; repeat split; reflexivity.
+Qed.
+
+(* the repaired orientation flag: an upper Cholesky operator over an upper triangular factor is rebuilt exactly *)
+Example C14_chol_upper_survives :
+  let o := AOp CChol [AOp CTriangular [AOp CDense [ATensor (T 0 0 F64 false)] [] [] []] [] [(k_upper, VBool true)] []]
+               [] [(k_upper, VBool true)] [] in
+  wfb o = true /\ rebuild F32 o = Some o.
+Proof. vm_compute. split; reflexivity. Qed.
